@@ -233,9 +233,9 @@ func c18expected(cons string, s c18slice, g c18sig) c18expect {
 		default:
 			return expUndefined("accumulator support for this key kind is not documented")
 		}
-		if s.Prefix > 1 {
-			return expUndefined("BUG(marius): Fold does not yet support slice grouping")
-		}
+		// BUG(marius) in the Fold doc says that grouping by a wider prefix is not supported at run
+		// time; the documented signature (func(acc, t2, ..., tn) acc) does not depend on the prefix,
+		// and is what is judged here (the key prefix of the result is left open, as for Map)
 		if !isFunc {
 			return expReject("not a function")
 		}
@@ -417,7 +417,7 @@ func runC18call(t *vf.T, cons string, s c18slice, g c18sig) {
 	}
 	if exp.Defined && exp.Accept {
 		out, prefix, shards := sliceShape(res)
-		if (cons == "Map" || cons == "Flatmap") && s.Prefix > 1 {
+		if (cons == "Map" || cons == "Flatmap" || cons == "Fold") && s.Prefix > 1 {
 			// The documentation does not say whether a mapped slice inherits the key prefix of its
 			// input; only a prefix that exceeds the number of columns is ill-formed.
 			if prefix > len(out) {
